@@ -272,6 +272,12 @@ def main():
     err_fns = set()
     for o in engine_errors:
         short = o['target']
+        try:
+            cfn = spec.sf.contracts[o['target']].fn
+            if cfn:
+                short = prog.short(cfn)
+        except Exception:
+            pass
         had = [b for b in base if ('/' + short + '/') in b]
         if had:
             err_fns.add(short)
